@@ -262,6 +262,26 @@ def ob_history(chk, ir, K):
                     m2, err = p2.result
                     if not (isinstance(err, IfaceV) and err.tid is None): continue
                     sr2 = mkrec(p2, m2)
+                    # 2b. expiry keeps working on the reloaded history: expireOldEvents at the later instant t(k+1), then list
+                    s6 = p2.fork(); s6.status = 'run'; s6.frames = []; s6.aux['clk'] = k + 1
+                    for p6 in ex.run(exp, [sr2], s6):
+                        total += 1
+                        if p6.status != 'returned': chk.obligation('history', f'k={k}', 'inconclusive', f'expireOldEvents after reload: {p6.result}'); return
+                        l6 = listing(p6.fork(), sr2)
+                        if l6 is None: chk.obligation('history', f'k={k}', 'inconclusive', 'listing after reload + expiry failed'); return
+                        ci0 = ir.field_index(ET, 'CreateTime'); mint6 = times[k + 1] - MONTH_S
+                        for p7, _, kept in l6:
+                            ncmp += 1
+                            for pattern in itertools.product([True, False], repeat=k):
+                                cond = z3.And([z3.UGE(times[i], mint6) if b else z3.ULT(times[i], mint6) for i, b in enumerate(pattern)])
+                                if not ex.feasible(p7.pc, cond): continue
+                                want = [times[i] for i in reversed(range(k)) if pattern[i]]
+                                ok7 = len(kept) == len(want) and not ex.feasible(list(p7.pc) + [cond], z3.Not(z3.And([ex.field(p7, e, ci0) == w_ for e, w_ in zip(kept, want)] + [z3.BoolVal(True)])))
+                                if not ok7:
+                                    res = chk.violation('history-survives-restart', f'expireOldEvents after reload k={k}', f'after save, reload and a later expiry the history holds {len(kept)} events where {len(want)} are younger than the retention (or not those)', {'kept_pattern': pattern})
+                                    if res == 'new': verdict = 'violated'
+                                    elif verdict == 'holds': verdict = 'known'
+                                    break
                     l2 = listing(p2, sr2)
                     if l2 is None: chk.obligation('history', f'k={k}', 'inconclusive', 'second listing failed'); return
                     for p3, _, after in l2:
